@@ -32,6 +32,8 @@ try:
                               "commands": ["git worktree add <scratch> HEAD", f"git apply /verif/{base}  (behaviour-preserving refactor = baseline)", "MPLBACKEND=Agg PYTHONPATH=<scratch> /venv/bin/python demo.py",
                                            "patch -p0 -i patch.diff", "MPLBACKEND=Agg PYTHONPATH=<scratch> /venv/bin/python demo.py", "/venv/bin/python -m pytest -q tests"]},
                 "demo_output_with_patch": out1[-300:]}
+        if os.path.isdir(f"/verif/bases/{head}"):
+            meta["snapshot"] = head          # the corpus snapshot this change is replayed on (ocv/patching.py:snapshot_of)
         if not base:
             del meta["base_diff"]
             meta["confirmed"]["commands"] = [c for c in meta["confirmed"]["commands"] if not c.startswith("git apply")]
